@@ -21,6 +21,12 @@ RULE = (
     "distinct = blake2b(payload); non-trivial = the truncated payload still contains the identity and the reference "
     "decoder needs at least one more bit than supplied"
 )
+RULE += (
+    ' Also: the same sweeps with the PINNED layouts (vf.stdlayout) as encoder and decoder (an oracle that'
+    ' does not follow a changed table entry); short payloads also as bytearray / memoryview incl. views'
+    ' INTO a longer buffer; the same rule through RTCMReader.parse with correct framing and with a length'
+    ' field that still announces the original size.'
+)
 ASSUMPTIONS = [
     "shorter inputs than the identity header fall under C04",
     "4076_201 bodies with harmonic order M > N are skipped (layout undefined by the standard)",
